@@ -713,7 +713,7 @@ func seedStream(seed int64, k int) []uint64 {
 }
 
 func (prop) Run(line string) core.Outcome {
-	if strings.HasPrefix(line, "prx ") || strings.HasPrefix(line, "key ") || strings.HasPrefix(line, "ck ") || strings.HasPrefix(line, "cf ") {
+	if strings.HasPrefix(line, "prx ") || strings.HasPrefix(line, "key ") || strings.HasPrefix(line, "ck ") || strings.HasPrefix(line, "cf ") || strings.HasPrefix(line, "rp ") {
 		var f []string
 		for _, p := range strings.Split(line, " ") {
 			if p != "" {
@@ -727,6 +727,8 @@ func (prop) Run(line string) core.Outcome {
 			return runKey(f)
 		case "cf":
 			return runCf(f)
+		case "rp":
+			return runRp(f)
 		}
 		return runCk(f)
 	}
